@@ -396,6 +396,11 @@ def needs_flags_valuation(ctx):
         ("HEX_GET_INSN_RMODE(hi)", (True, False)), ("U32(pkt->pkt_addr)", (False, True)), ("a = (hi);\nb = f(pkt, hi);", (True, True)),
         ("RzILOpEffect *e = EMPTY();", (False, False)),
         ("HEX_STORE_SLOT_CANCELLED(pkt, hi->slot)", (True, True)), ("x = hi->slot;", (True, False)), ("f(&hi, *pkt);", (True, True)),
+        # whole bodies as the layouts print them: an empty READ block (no operand to resolve) says nothing about what the effects use
+        ("\n// READ\n\n// EXEC\n\n// WRITE\nRzILOpEffect *c_call_1 = HEX_STORE_SLOT_CANCELLED(pkt, hi->slot);\nRzILOpEffect *instruction_sequence = c_call_1;\n\nreturn instruction_sequence;", (True, True)),
+        ("\n// READ\n\n// jump(get_npc(pkt));\nRzILOpEffect *jump_3 = SEQ2(SETL(\"jump_flag\", IL_TRUE), SETL(\"jump_target\", HEX_GET_NPC(pkt)));\nreturn jump_3;", (False, True)),
+        ("\n// READ\n\n// EXEC\n\n// WRITE\nRzILOpEffect *instruction_sequence = EMPTY();\n\nreturn instruction_sequence;", (False, False)),
+        ("\n// READ\nconst HexOp *Rd_op = ISA2REG(hi, 'd', false);\n\n// EXEC\n\n// WRITE\nRzILOpEffect *op_ASSIGN_2 = WRITE_REG(bundle, Rd_op, SN(32, 1));\nreturn op_ASSIGN_2;", (True, False)),
     ]
     for code, exp in probes:
         outs = Interp(idx).explore(lambda i, code=code: i.construct("RZILInstruction", ["X", [code], [["M"]], [""]], {}))
@@ -468,6 +473,12 @@ def r11_5(ctx):
         dup = seen.get(g)
         seen.setdefault(g, n)
         ctx.check(f"getter hex_il_op_{g}", dup is None, "unique", f"also produced by {dup}" if dup else "unique", "Resources/Hexagon/Preprocessor/shortcode_resolved.h", nontrivial=False)
+    # the decorated spellings of an instruction normalise to EXACTLY its plain name (case preserved): both end up in one registry entry
+    for deco, plain in (("dep_A2_addsat", "A2_addsat"), ("IMPORTED_A2_add", "A2_add"), ("A2_add_undocumented", "A2_add"), ("undocumented_J2_jump", "J2_jump"), ("A2_add", "A2_add"),
+                        ("SA2_tfrsi", "A2_tfrsi"), ("dep_S2_storerb_io", "S2_storerb_io")):
+        outs = Interp(idx).explore(lambda i, deco=deco: i.call_function(ft, [deco], self_obj=AObj("HexagonCompilerExtension", {}, label="ext")))
+        got = sorted({str(o.value) if o.kind == "return" else "RAISE" for o in outs})
+        ctx.check(f"normalised name of {deco}", got == [plain], plain, str(got), fn_where(idx, ft))
     # ... and within one compiler: the registry of compiled instructions is keyed by the name the record (and its getter) carries, so
     # two spellings of one instruction (SA2_x / A2_x, dep_x / x) share one entry instead of yielding two records with one getter name
     ti = idx.func("Compiler.transform_insn")
